@@ -52,6 +52,7 @@ def invCheck (P : Program) (s : St) (n : Nat) : List String :=
       (if t.issued == issuedAfter P k t.seq then [] else ["T.issued"]) ++
       (if validSeq P k t.seq then [] else ["T.valid"]) ++
       (if t.seq.all (fun qv => qv.1.kind != 0 || (s.status qv.1.key == .done && (s.mem.res qv.1.key).value == qv.2)) then [] else ["T.inputs"]) ++
+      (if s.status k == .running && t.completed then ["T.running"] else []) ++
       (if s.status k == .computing then
         (if completeSeq P k t.seq && t.discs == P.disc k (recvOf t.seq) then [] else ["T.computing"]) ++
         (if t.completed && r.value != P.out k s.env (recvOf t.seq) then ["T.completedValue"] else [])
